@@ -2094,35 +2094,37 @@ class VM:
                 try:
                     regex_internal = sep._internal
                     parts = []
-                    last_end = 0
-                    pos = 0
                     capture_count = regex_internal._capture_count
 
-                    while pos <= len(s):
-                        # Create fresh regex VM for each search to avoid lastIndex issues
+                    # Symbol.split: the separator is tried *at* every position
+                    # q (a sticky attempt); its own lastIndex is not involved.
+                    # p is the start of the pending piece.  A match that ends
+                    # where the piece starts splits nothing, so an empty match
+                    # yields no empty piece at either end of the string.
+                    p = q = 0
+                    while q < size:
                         vm_regex = regex_internal._create_vm()
-                        result = vm_regex.search(s, pos)
-                        if result is None:
-                            break
+                        result = vm_regex.match(s, q)
+                        end = q + len(result[0]) if result is not None else p
+                        if end == p:
+                            q += 1
+                            continue
 
-                        # Add the part before this match
-                        parts.append(s[last_end : result.index])
-
-                        # Add captured groups (JS behavior) - capture_count includes group 0
+                        parts.append(s[p:q])
+                        # Captured groups follow the piece (capture_count includes group 0)
                         for i in range(1, capture_count):
                             group_val = result[i]
                             parts.append(
                                 group_val if group_val is not None else UNDEFINED
                             )
+                        p = q = end
 
-                        # Move past the match
-                        match_len = len(result[0]) if result[0] else 0
-                        last_end = result.index + match_len
-                        # Advance position (at least by 1 to avoid infinite loop on zero-width)
-                        pos = last_end if match_len > 0 else result.index + 1
-
-                    # Add remainder after last match
-                    parts.append(s[last_end:])
+                    if size > 0:
+                        parts.append(s[p:])
+                    elif regex_internal._create_vm().match(s, 0) is None:
+                        # the empty string splits into [""] unless the
+                        # separator matches it
+                        parts.append(s)
                 except RegexTimeoutError:
                     raise TimeLimitError("Regex execution timeout")
             elif to_str(sep) == "":
